@@ -101,11 +101,6 @@ func selectOnce(w *vtrace.Writer, weights []int, size int, vals []uint64) (strin
 }
 
 func replay(path, out string) {
-	bs, err := vtrace.ReadBehaviours(path)
-	if err != nil {
-		vtrace.Broken(err.Error())
-		return
-	}
 	w, err := vtrace.NewWriter(out)
 	if err != nil {
 		vtrace.Broken(err.Error())
@@ -115,11 +110,10 @@ func replay(path, out string) {
 	rng := rand.New(rand.NewSource(seed))
 	distinct := vtrace.NewDistinct()
 	w.NewTrace()
-	nerr := 0
-	for bi, b := range bs {
+	nerr, nsamples := 0, 0
+	nb, err := nc.EachBehaviour(path, func(bi int, b []vtrace.Step) error {
 		if len(b) == 0 || b[0].A != "New" {
-			vtrace.Broken(fmt.Sprintf("behaviour %d does not start with New", bi))
-			return
+			return fmt.Errorf("behaviour %d does not start with New", bi)
 		}
 		weights := vtrace.Ints(b[0].In["w"])
 		size := vtrace.Int(b[0].In["size"])
@@ -128,8 +122,7 @@ func replay(path, out string) {
 			total += x
 		}
 		if total > 16 {
-			vtrace.Broken("total weight above 16: residues would not be preserved by lcm16")
-			return
+			return fmt.Errorf("total weight above 16: residues would not be preserved by lcm16")
 		}
 		vals := make([]uint64, 0, len(b)-1)
 		for _, st := range b[1:] {
@@ -147,14 +140,22 @@ func replay(path, out string) {
 		if len(b) > 1 || e != "" {
 			distinct.Add(fmt.Sprint(weights, size, vals2res(b)))
 		}
-		if bi < 2 || (e != "" && nerr <= 1) {
+		if (len(b) >= 4 && nsamples < 2) || (e != "" && nerr <= 1) {
+			if e == "" {
+				nsamples++
+			}
 			vtrace.Sample("C15", M{"weights": weights, "size": size, "hash_values": vals, "real_result": sel, "real_err": e})
 		}
+		return nil
+	})
+	if err != nil {
+		vtrace.Broken(err.Error())
+		return
 	}
 	if err := w.Close(); err != nil {
 		vtrace.Broken(err.Error())
 	}
-	vtrace.Stat("behaviours", len(bs))
+	vtrace.Stat("behaviours", nb)
 	vtrace.Stat("events", w.N)
 	vtrace.Stat("error_cases", nerr)
 	vtrace.Stat("distinct", distinct.Len())
